@@ -42,6 +42,8 @@ MUTANTS = [
     ('C06', 'supp/scope.py', r"if isinstance\(v, RuntimeName\) and v\.is_builtin and v\.name == 'staticmethod':", "if False:", 'C06-R4'),
     ('C06', 'supp/nast.py', r"            if node\.value:\n                # a bare annotation \(self\.x: int\) assigns nothing\n                self\.top\.add_attr_assign", "            if True:\n                self.top.add_attr_assign", 'C06-R4'),
     ('C11', 'supp/util.py', r"        if not PY2:\n            char_columns\(tree, self\.lines\)\n", "", 'C11-R1'),
+    ('C01', 'supp/scope.py', r"                if self\.scope is self\.scope\.top:\n", "                if False:\n", 'C01-R2'),
+    ('C01', 'supp/scope.py', r"            for name in star_names\(module\._attrs\):\n", "            for name in [n for n in module._attrs if not n.startswith('_')]:\n", 'C01-R7'),
     # ---- C02
     ('C02', 'supp/scope.py', r"if len\(self\.parents\) == 1:", "if len(self.parents) >= 1:", 'C02-R4'),
     ('C02', 'supp/nast.py', r"self\.flow = self\.make_flow\('join', \[body, orelse\]\)", "self.flow = self.make_flow('join', [orelse])", 'C02-R1'),
